@@ -214,6 +214,13 @@ struct ChildObs {
     thread_frames: Vec<Value>,
     statuses: Vec<(String, u16)>,
     errors: Vec<String>,
+    /// (label, body) of every non-SSE response, in call order
+    #[serde(default)]
+    bodies: Vec<(String, String)>,
+    /// SSE reads that ended because the log on disk showed the terminal frame (the stream itself did not
+    /// deliver it: a subscribe/replay gap of the SSE handlers, not a C19 matter)
+    #[serde(default)]
+    sse_gaps: u64,
 }
 
 fn child_main(spec_path: &str) -> i32 {
@@ -267,16 +274,32 @@ async fn call(
     };
     raw.extend_from_slice(&bytes);
     obs.statuses.push((format!("{method} {}", uri.split('/').take(2).collect::<Vec<_>>().join("/")), status));
+    obs.bodies.push((format!("{method} {}", uri.split('/').enumerate().map(|(i, p)| if i == 2 && p.len() > 20 { "<id>" } else { p }).collect::<Vec<_>>().join("/")), String::from_utf8_lossy(&bytes).to_string()));
     (status, bytes)
 }
 
-/// reads an SSE response until a frame satisfying `stop` was seen (or timeout); returns frames
+/// true when a line of `path` (JSONL) mentions `id` and has `"type":"<ty>"`
+fn log_has(path: &Path, id: &str, ty: &str) -> bool {
+    let Ok(text) = std::fs::read_to_string(path) else { return false };
+    let needle = format!("\"type\":\"{ty}\"");
+    text.lines().any(|l| l.contains(&needle) && l.contains(id))
+}
+fn any_log_has(dir: &Path, id: &str, ty: &str) -> bool {
+    let Ok(rd) = std::fs::read_dir(dir) else { return false };
+    rd.flatten().any(|e| e.path().extension().map(|x| x == "jsonl").unwrap_or(false) && log_has(&e.path(), id, ty))
+}
+
+/// reads an SSE response until a frame satisfying `stop` was seen, or `on_disk()` says the terminal frame
+/// is in the persisted log and the stream has been idle since (the SSE handlers may not deliver a frame
+/// published between their subscribe and replay steps; completion must not depend on that), or a generous
+/// watchdog expires; returns the frames seen
 async fn sse_until(
     app: &axum::Router,
     raw: &mut Vec<u8>,
     obs: &mut ChildObs,
     uri: &str,
     stop: &dyn Fn(&Value) -> bool,
+    on_disk: &dyn Fn() -> bool,
     timeout_s: u64,
 ) -> Vec<Value> {
     use futures_util::StreamExt;
@@ -300,16 +323,28 @@ async fn sse_until(
     let mut buf: Vec<u8> = vec![];
     let deadline = tokio::time::Instant::now() + Duration::from_secs(timeout_s);
     let mut done = false;
+    let mut idle_after_disk = 0u32;
     while !done {
-        let next = tokio::time::timeout_at(deadline, stream.next()).await;
+        let next = tokio::time::timeout(Duration::from_millis(250), stream.next()).await;
         let chunk = match next {
             Ok(Some(Ok(c))) => c,
             Ok(_) => break,
             Err(_) => {
-                obs.errors.push(format!("GET {uri}: sse timeout"));
-                break;
+                if on_disk() {
+                    idle_after_disk += 1;
+                    if idle_after_disk >= 4 {
+                        obs.sse_gaps += 1;
+                        break;
+                    }
+                }
+                if tokio::time::Instant::now() >= deadline {
+                    obs.errors.push(format!("GET {uri}: sse watchdog ({timeout_s}s) expired and the log has no terminal frame"));
+                    break;
+                }
+                continue;
             }
         };
+        idle_after_disk = 0;
         raw.extend_from_slice(&chunk);
         buf.extend_from_slice(&chunk);
         while let Some(p) = buf.windows(2).position(|w| w == b"\n\n") {
@@ -349,8 +384,10 @@ async fn child_drive(spec: &ChildSpec) -> ChildObs {
         }
         let (_, b) = call(&app, &mut raw, &mut obs, "POST", &format!("/threads/{tid}/messages"), Some(payload)).await;
         let sid = serde_json::from_slice::<Value>(&b).ok().and_then(|v| v["session_id"].as_str().map(String::from)).unwrap_or_default();
-        obs.session_frames = sse_until(&app, &mut raw, &mut obs, &format!("/sessions/{sid}/events"), &|v| v["type"] == "session_ended", 25).await;
-        obs.thread_frames = sse_until(&app, &mut raw, &mut obs, &format!("/threads/{tid}/events"), &|v| v["type"] == "continuity_run_ended", 25).await;
+        let events = Path::new(&spec.data_dir).join("events.jsonl");
+        let cont_dir = Path::new(&spec.data_dir).join("continuity_streams");
+        obs.session_frames = sse_until(&app, &mut raw, &mut obs, &format!("/sessions/{sid}/events"), &|v| v["type"] == "session_ended", &|| log_has(&events, &sid, "session_ended"), 240).await;
+        obs.thread_frames = sse_until(&app, &mut raw, &mut obs, &format!("/threads/{tid}/events"), &|v| v["type"] == "continuity_run_ended", &|| any_log_has(&cont_dir, &sid, "continuity_run_ended"), 240).await;
         for (m, u, body) in [
             ("POST", format!("/threads/{tid}/provider-cursor-status"), Some(json!({}))),
             ("POST", format!("/threads/{tid}/context-selection-status"), Some(json!({}))),
@@ -364,10 +401,11 @@ async fn child_drive(spec: &ChildSpec) -> ChildObs {
         let (_, b) = call(&app, &mut raw, &mut obs, "POST", "/sessions", None).await;
         let sid = serde_json::from_slice::<Value>(&b).ok().and_then(|v| v["session_id"].as_str().map(String::from)).unwrap_or_default();
         call(&app, &mut raw, &mut obs, "POST", &format!("/sessions/{sid}/input"), Some(json!({ "input": spec.prompt }))).await;
-        obs.session_frames = sse_until(&app, &mut raw, &mut obs, &format!("/sessions/{sid}/events"), &|v| v["type"] == "session_ended", 25).await;
+        let events = Path::new(&spec.data_dir).join("events.jsonl");
+        obs.session_frames = sse_until(&app, &mut raw, &mut obs, &format!("/sessions/{sid}/events"), &|v| v["type"] == "session_ended", &|| log_has(&events, &sid, "session_ended"), 240).await;
         // the snapshot is written after session_ended
         let snap = Path::new(&spec.data_dir).join("snapshots").join(format!("{sid}.json"));
-        for _ in 0..200 {
+        for _ in 0..6000 {
             if snap.exists() && std::fs::metadata(&snap).map(|m| m.len() > 0).unwrap_or(false) {
                 break;
             }
@@ -448,6 +486,9 @@ fn script_for(outcome: u8) -> Vec<Scripted> {
 struct RunOut {
     sc: Scenario, // concrete
     obs: ChildObs,
+    /// frames of the persisted logs (complete, unlike an SSE read): data/events.jsonl and the continuity stream
+    disk_session: Vec<Value>,
+    disk_thread: Vec<Value>,
     recorded: Vec<Recorded>,
     /// (relative path, bytes) of every file under the data dir and workspace/.rip
     files: Vec<(String, Vec<u8>)>,
@@ -527,7 +568,7 @@ fn run_once(sc: &Scenario, key: &str, hdr: &str) -> RunOut {
     std::fs::write(&spec_path, serde_json::to_vec(&spec).unwrap()).unwrap();
     let exe = std::env::current_exe().unwrap();
     let mut cmd = std::process::Command::new("timeout");
-    cmd.arg("90").arg(exe).arg("--child").arg(&spec_path);
+    cmd.arg("900").arg(exe).arg("--child").arg(&spec_path);
     cmd.env_clear();
     cmd.env("PATH", std::env::var("PATH").unwrap_or_else(|_| "/usr/bin:/bin".into()));
     cmd.env("HOME", root.join("home"));
@@ -549,9 +590,21 @@ fn run_once(sc: &Scenario, key: &str, hdr: &str) -> RunOut {
     walk(&root.join("outer/ws/.rip"), &root, &mut files);
     let raw_responses = std::fs::read(root.join("out/raw.bin")).unwrap_or_default();
     let recorded = provider.recorded();
+    let parse_lines = |b: &[u8]| -> Vec<Value> { String::from_utf8_lossy(b).lines().filter_map(|l| serde_json::from_str::<Value>(l).ok()).collect() };
+    let mut disk_session = vec![];
+    let mut disk_thread = vec![];
+    for (p, b) in &files {
+        if p == "data/events.jsonl" {
+            disk_session = parse_lines(b);
+        } else if p.starts_with("data/continuity_streams/") && p.ends_with(".jsonl") && p.matches('.').count() == 1 {
+            disk_thread.extend(parse_lines(b));
+        }
+    }
     RunOut {
         sc: c,
         obs,
+        disk_session,
+        disk_thread,
         recorded,
         files,
         raw_responses,
@@ -785,7 +838,7 @@ fn observe(r: &RunOut) -> Vec<u64> {
     // 3. config-derived fields of the session frames
     let mut reqs = vec![];
     let mut ended = None;
-    for f in &r.obs.session_frames {
+    for f in &r.disk_session {
         match f["type"].as_str().unwrap_or("") {
             "openresponses_request" => reqs.push((0u64, f)),
             "openresponses_request_started" => reqs.push((1u64, f)),
@@ -803,7 +856,7 @@ fn observe(r: &RunOut) -> Vec<u64> {
     }
     enc_ostr(&mut o, ended);
     // 4. provider cursor frame of the thread stream
-    let cur: Vec<&Value> = r.obs.thread_frames.iter().filter(|f| f["type"] == "continuity_provider_cursor_updated").collect();
+    let cur: Vec<&Value> = r.disk_thread.iter().filter(|f| f["type"] == "continuity_provider_cursor_updated").collect();
     o.push(cur.len() as u64);
     for f in cur {
         enc_ostr(&mut o, f["endpoint"].as_str());
@@ -1022,6 +1075,17 @@ fn gen_scenario(rng: &mut Rng, i: u64) -> Scenario {
     sc
 }
 
+/// frames of the two runs' SSE reads with the same seq (an SSE read may lack frames: see `sse_until`)
+fn sse_pairs(a: &[Value], b: &[Value]) -> Vec<(Vec<u8>, Vec<u8>)> {
+    let mut out = vec![];
+    for x in a {
+        if let Some(y) = b.iter().find(|y| y["seq"] == x["seq"]) {
+            out.push((serde_json::to_vec(x).unwrap(), serde_json::to_vec(y).unwrap()));
+        }
+    }
+    out
+}
+
 // ------------------------------------------------------------------ checks on a pair of runs
 struct PairReport {
     violations: Vec<(String, String)>, // (class, what)
@@ -1135,6 +1199,31 @@ fn check_pair(a: &RunOut, b: &RunOut, cores: [&str; 4], sc: &Scenario) -> PairRe
         }
         rep.violations.push(("persisted_depends_on_secret".into(), what));
     }
+    // (iii) diagnostics and everything the router answered are equal after canonicalisation
+    for (name, xa, xb) in [
+        ("doctor", serde_json::to_vec(&a.obs.doctor).unwrap(), serde_json::to_vec(&b.obs.doctor).unwrap()),
+        ("doctor-after", serde_json::to_vec(&a.obs.doctor_after).unwrap(), serde_json::to_vec(&b.obs.doctor_after).unwrap()),
+    ]
+    .into_iter()
+    .chain(a.obs.bodies.iter().zip(b.obs.bodies.iter()).map(|(x, y)| ("http-response", format!("{} {}", x.0, x.1).into_bytes(), format!("{} {}", y.0, y.1).into_bytes())))
+    .chain(sse_pairs(&a.obs.session_frames, &b.obs.session_frames).into_iter().map(|(x, y)| ("sse-frame", x, y)))
+    .chain(sse_pairs(&a.obs.thread_frames, &b.obs.thread_frames).into_iter().map(|(x, y)| ("sse-frame", x, y)))
+    {
+        rep.checks += 1;
+        let (ca, cb) = (canon(&xa, a), canon(&xb, b));
+        if ca != cb {
+            let p = ca.iter().zip(cb.iter()).position(|(m, n)| m != n).unwrap_or(ca.len().min(cb.len()));
+            let lo = p.saturating_sub(80);
+            rep.violations.push((
+                format!("{}_depends_on_secret", if name.starts_with("doctor") { "diagnostics" } else { "response" }),
+                format!(
+                    "{name} differs between the two canary runs at byte {p}: …{}… vs …{}…",
+                    String::from_utf8_lossy(&ca[lo..(p + 40).min(ca.len())]),
+                    String::from_utf8_lossy(&cb[lo..(p + 40).min(cb.len())])
+                ),
+            ));
+        }
+    }
     rep
 }
 
@@ -1218,6 +1307,7 @@ fn main() {
         res.bump(if dump_on { "dump:on" } else { "dump:off" });
         res.bump(&format!("layers:{}", sc.layers.len()));
         res.bump_by("provider-requests-recorded", (a.recorded.len() + b.recorded.len()) as u64);
+        res.bump_by("sse-reads-ended-by-disk-log", a.obs.sse_gaps + b.obs.sse_gaps);
         res.bump_by("persisted-files-scanned", (a.files.len() + b.files.len()) as u64);
         res.bump_by("persisted-bytes-scanned", a.files.iter().chain(b.files.iter()).map(|f| f.1.len() as u64).sum());
         if rep.positive_na {
